@@ -27,12 +27,14 @@ def handle(rep, recs):
 def run(tier, rep):
     thorough = tier == "thorough"
     rep.assumptions += [
-        "declaration kinds: field, const, object, array, custom_func(concat); template and xpath_dynamic are exercised as alternative renderings of the same tree (inlined = referenced; constant xpath_dynamic = xpath)",
+        "declaration kinds: field, const, object, array, custom_func(concat), field with computed xpath (xpath_dynamic: field or const; only computed values that denote an existing path name, nothing, or a failure); "
+        "template and constant xpath_dynamic are also exercised as alternative renderings of the same tree (inlined = referenced; constant xpath_dynamic = xpath)",
         "types: none/int over the alphabet {1,2,x,y,space}; calls are well-typed (ill-typed custom_func arguments are C03's concern)",
         "a kept empty object/array/null is compared modulo rendering ({} = [] = null): the statement fixes omission, not rendering",
     ]
     jobs = [("collide", dict(Family='"collide"', M=5, Part=0, Parts=1, EmitMod=1, DocN=3)),
             ("order", dict(Family='"order"', M=13, Part=0, Parts=1, EmitMod=1, DocN=2)),
+            ("dyn", dict(Family='"dyn"', M=5, Part=0, Parts=1, EmitMod=1 if thorough else 2, DocN=3)),
             ("all M=2", dict(Family='"all"', M=2, Part=0, Parts=1, EmitMod=1, DocN=3))]
     if thorough:
         jobs += [("all M=3", dict(Family='"all"', M=3, Part=0, Parts=1, EmitMod=1, DocN=3))]
@@ -71,6 +73,7 @@ def run(tier, rep):
                        "schema": ev.get("schema"), "input": ev.get("input"), "format": ev.get("format"), "actual": ev.get("got")})
     rep.cov["rule"] = ("B1: declaration trees (M nodes over 34 node variants: field/const/object/array/concat x xpath x type x no_trim x keep) "
                        "x records (<=3 nodes), plus the directed families 'collide' (identical declarations in anchoring and non-anchoring "
-                       "position) and 'order' (array with 11 elements); each rendered three ways (inline, every subtree as a template, "
+                       "position), 'order' (array with 11 elements) and 'dyn' (xpath_dynamic whose computation succeeds, is empty or fails, next to a "
+                       "declaration with the same text); each rendered three ways (inline, every subtree as a template, "
                        "xpath_dynamic) for XML and JSON input; expectations from RefEval in Eval.tla. B2: random trees (<=8/10 nodes) and "
                        "records checked by TLC. non-trivial: >=3 declarations, an anchoring xpath, result neither null nor a failure")
